@@ -8,7 +8,7 @@ from harness import docs
 from oracle.content import content, first_difference
 from oracle.norm import norm
 
-THOROUGH_STRIDE = 3      # the registered thorough tier runs every 3th instance of the full cross product (vp_check.py --tier full runs all)
+THOROUGH_STRIDE = 6      # the registered thorough tier runs every 6th instance of each family of the full cross product (vp_check.py --tier full runs all)
 
 ASSUMPTIONS = [
     'documents of <= 3 tables / 3 columns / 2 indexes / 3 refs; <= 2 sites symbolic per instance (K characters each), the other '
